@@ -16,6 +16,10 @@ from cpu_diff import real_observe
 ID = 'C12'
 LEAN_MODULES = ['Py65.Props.C12']
 NAMESPACES = ['Py65.Props.C12']
+# library helpers (CPython behaviour modelled in lean/Py65/Model/*Rt*.lean ...) that the generated code of these
+# modules calls, derived by scanning the Lean sources (harness/rtscan.py); validated against CPython on every run
+import rtcheck  # noqa: E402
+RT_HELPERS = rtcheck.helpers_for(LEAN_MODULES)
 EXPECTED_THEOREMS = ['Py65.Props.C12.accesses_nmos6502', 'Py65.Props.C12.accesses_cmos', 'Py65.Props.C12.accesses_org16',
                      'Py65.Props.C12.accesses_waiting', 'Py65.Props.C12.irq_accesses', 'Py65.Props.C12.nmi_accesses',
                      'Py65.Props.C12.fetched_sublist']
